@@ -28,9 +28,9 @@ pub enum DecimalParser {
 impl DecimalParser {
     pub fn new(precision: u8, scale: i8, truncated: bool) -> Self {
         if scale <= 0 && !truncated {
-            Self::IntegerOnly(precision as usize, -scale as usize)
+            Self::IntegerOnly(precision as usize, scale.unsigned_abs() as usize)
         } else if scale < 0 {
-            Self::IntegerOnlyTruncated(precision as usize, -scale as usize)
+            Self::IntegerOnlyTruncated(precision as usize, scale.unsigned_abs() as usize)
         } else if (scale as usize) < (precision as usize) && !truncated {
             Self::Mixed(precision as usize, scale as usize)
         } else if (scale as usize) < (precision as usize) {
